@@ -145,6 +145,14 @@ int main(int argc, char** argv) {
         // (contacts/constraints may exist after a reset: models with sleep-initialised trees run mj_forward inside it - the fresh instance does too)
         if (U->parena != F->parena || U->pstack || U->pbase) violation("reset-mismatch", "mj_resetData left parena=%zu (fresh: %zu) pstack=%zu pbase=%zu", (size_t)U->parena, (size_t)F->parena, (size_t)U->pstack, (size_t)U->pbase);
         for (int i = 0; i < mjNWARNING; i++) if (U->warning[i].number) violation("reset-mismatch", "mj_resetData left warning %d counter at %d", i, U->warning[i].number);
+        // the debug reset fills the buffers with a byte first; everything a reset defines must then be defined again exactly as by mj_resetData
+        { unsigned char byte = (unsigned char)(1 + r.below(255));
+          mj_resetDataDebug(m, U, byte);
+          std::vector<mjtNum> su((size_t)mj_stateSize(m, mjSTATE_FULLPHYSICS | mjSTATE_USER)), sf(su.size());
+          mj_getState(m, U, su.data(), mjSTATE_FULLPHYSICS | mjSTATE_USER); mj_getState(m, F, sf.data(), mjSTATE_FULLPHYSICS | mjSTATE_USER);
+          if (su.size() && memcmp(su.data(), sf.data(), su.size() * sizeof(mjtNum))) { size_t i = 0; while (!memcmp(&su[i], &sf[i], sizeof(mjtNum))) i++;
+            violation("reset-mismatch", "mj_resetDataDebug(fill byte 0x%02x) leaves state slot %zu of %zu at %.17g, a fresh instance has %.17g (nhistory=%d)", byte, i, su.size(), su[i], sf[i], (int)m->nhistory); }
+          count("debug_resets"); }
         count("reset_checks");
         // ---- 6. keyframe reset == reset + the keyframe's values
         if (m->nkey) {
